@@ -8,8 +8,9 @@
 //! Platform rules applied by the harness itself (the white-box VM is more lenient than the
 //! protocol): an ESDT payment / NFT quantity of 0 is refused without executing anything.
 //!
-//! `execute_query` COMMITS in this VM: the reward view `calc` is therefore a state-changing line
-//! for both sides (its settlement is what any later operation would do first).
+//! `execute_query` COMMITS in this VM while a VM query is discarded on chain: the reward view
+//! `calc` (which settles rewards AND runs the owner's boosted claim) is therefore evaluated on a
+//! TWIN world rebuilt from the successful transactions so far, and the main world is untouched.
 
 #![allow(deprecated)]
 #![allow(clippy::too_many_arguments)]
@@ -205,6 +206,11 @@ struct StakingWorld {
     hub_pairs: Vec<(usize, usize)>,
     last_quote: Option<(String, BigUint)>,
     pending: Vec<(char, String)>,
+    header: String,
+    /// twin worlds replay silently: no oracles, no post-snapshots
+    quiet: bool,
+    /// successful transactions so far (a twin world is rebuilt from them for every reward quote)
+    log: Vec<String>,
 }
 
 // ---------------------------------------------------------------------------------------
@@ -972,6 +978,7 @@ impl World for StakingWorld {
             virt: BigInt::zero(), paid: BigUint::zero(), paid_base: BigUint::zero(), base_budget: BigUint::zero(),
             funded, frozen: BTreeMap::new(), paid_week: BTreeMap::new(), taken_week: BTreeMap::new(),
             factors_log: vec![], first_factors: None, hub_pairs: vec![], last_quote: None, pending: vec![],
+            header: header.to_string(), quiet: false, log: vec![],
         }
     }
 
@@ -1441,10 +1448,57 @@ impl StakingWorld {
         }
     }
 
+    /// evaluate `calculateRewardsForGivenPosition` as a VM query on a twin of this world
+    fn quote_on_twin(&mut self, tr: &mut Trace, w: &[&str]) -> Option<BigUint> {
+        let amt: BigUint = w[1].parse().ok()?;
+        let (rps, comp, cur): (BigUint, BigUint, BigUint) = (w[2].parse().ok()?, w[3].parse().ok()?, w[4].parse().ok()?);
+        let mut tw = StakingWorld::new(&self.header);
+        tw.quiet = true;
+        let mut ttr = Trace::create(&tr.dir.join("twin"));
+        ttr.world("twin");
+        for l in self.log.clone().iter() {
+            let k = ttr.op(l);
+            tw.run_line(&mut ttr, k, l, false);
+        }
+        let oa = match tw.idx(w[5]) {
+            Some(i) => tw.addrs[i].clone(),
+            None => Address::zero(),
+        };
+        let mut v = BigUint::zero();
+        let r = tw.b.execute_query(&tw.farm, |sc| {
+            let attrs = StakingFarmTokenAttributes::<DebugApi> {
+                reward_per_share: mbig(&rps),
+                compounded_reward: mbig(&comp),
+                current_farm_amount: mbig(&cur),
+                original_owner: managed_address!(&oa),
+            };
+            v = to_big(&sc.calculate_rewards_for_given_position(mbig(&amt), attrs));
+        });
+        // C20 view purity (on chain the query is discarded): the MAIN world is untouched by construction
+        if r.result_status == 0 { Some(v) } else { None }
+    }
+
     fn run_line(&mut self, tr: &mut Trace, n: u64, text: &str, is_q: bool) {
         let w: Vec<&str> = text.split_whitespace().collect();
         let site = w[0].to_string();
         tr.count(&format!("{}.{}", if is_q { "view" } else { "op" }, site));
+        if w[0] == "calc" {
+            // quote on a twin world: same header, same successful transactions, same block / epoch
+            let v = self.quote_on_twin(tr, &w);
+            match v {
+                Some(v) => {
+                    tr.count("ok.calc");
+                    self.last_quote = Some((text.to_string(), v.clone()));
+                    tr.view_ok(n, &format!("{}", v));
+                }
+                None => {
+                    tr.count("err.calc");
+                    self.last_quote = None;
+                    tr.view_err(n);
+                }
+            }
+            return;
+        }
         let zero = rust_biguint!(0);
         let owner = self.owner.clone();
         // ---- top up payers before the pre-snapshot ----
@@ -1512,7 +1566,7 @@ impl StakingWorld {
                         }
                     };
                     let ok = r.result_status == 0;
-                    if ok {
+                    if ok && !self.quiet {
                         let post = self.snap();
                         if w[0] == "stakeProxy" {
                             self.virt += bi(&amount);
@@ -1567,7 +1621,7 @@ impl StakingWorld {
                         }),
                     };
                     let ok = r.result_status == 0;
-                    if ok {
+                    if ok && !self.quiet {
                         let post = self.snap();
                         let first = Self::pos_meta(&pre, pays[0].0);
                         let user = match w[0] {
@@ -1587,21 +1641,35 @@ impl StakingWorld {
                                 Some((post.rps.clone(), comp0, pays[0].1.clone())), &pays[1..].to_vec(), user, new_val.as_ref());
                         }
                         self.expect_wallets(tr, &site, &pre, &post, &[(if w[0] == "claimBehalf" { user } else { c }, bi(&outs.2))]);
-                        // C20: the quote taken just before, in the same state
+                        // C20: the quote taken just before, in the same state (twin world)
                         if let Some((q, v)) = self.last_quote.take() {
                             if let Some(f) = &first {
-                                let want = format!("calc {} {} {} {} ", pays[0].1, f.0, f.1, f.2);
-                                if w[0] == "claim" && q.starts_with(&want) {
+                                let on = if f.3 < self.addrs.len() { self.name(f.3) } else { "z".into() };
+                                let want = format!("calc {} {} {} {} {}", pays[0].1, f.0, f.1, f.2, on);
+                                if w[0] == "claim" && q == want && f.3 < self.addrs.len() {
                                     let base_e = if post.rps > f.0 { &pays[0].1 * (&post.rps - &f.0) / &self.dsc } else { BigUint::zero() };
                                     tr.count("branch.quote_then_claim");
-                                    if v != base_e {
-                                        tr.fail("C20", "quote_eq_exec.base", "calculateRewardsForGivenPosition",
-                                            &format!("view {} base part of claimRewards {}", v, base_e));
-                                    }
-                                    if v != outs.2 {
-                                        tr.count("branch.quote_misses_boosted");
-                                        tr.fail("C20", "quote_eq_exec.boosted", "calculateRewardsForGivenPosition",
-                                            &format!("view {} claimRewards paid {} (boosted part {})", v, outs.2, &outs.2 - &base_e.min(outs.2.clone())));
+                                    if let Some(eb) = self.expected_boosted(&pre, f.3) {
+                                        if !eb.is_zero() { tr.count("branch.quote_with_pending_boosted"); }
+                                        // the base part of the quote is the base part of the execution
+                                        if v < base_e || v > &base_e + &eb {
+                                            tr.fail("C20", "quote_eq_exec.base", "calculateRewardsForGivenPosition",
+                                                &format!("view {} base part of claimRewards {} (owner's boosted {})", v, base_e, eb));
+                                        }
+                                        // the quote includes the recorded owner's boosted rewards: equal to what
+                                        // claimRewards pays when the claimer IS the recorded owner
+                                        if user == f.3 {
+                                            if v != outs.2 {
+                                                tr.fail("C20", "quote_eq_exec.boosted", "calculateRewardsForGivenPosition",
+                                                    &format!("view {} claimRewards paid {} (base {} boosted {})", v, outs.2, base_e, eb));
+                                            }
+                                        } else {
+                                            tr.count("branch.quote_for_foreign_owner");
+                                            if v != &base_e + &eb {
+                                                tr.fail("C20", "quote_eq_exec.boosted", "calculateRewardsForGivenPosition",
+                                                    &format!("view {} expected base {} + boosted of recorded owner {}", v, base_e, eb));
+                                            }
+                                        }
                                     }
                                 }
                             }
@@ -1631,7 +1699,7 @@ impl StakingWorld {
                         })
                     };
                     let ok = r.result_status == 0;
-                    if ok {
+                    if ok && !self.quiet {
                         let post = self.snap();
                         info.boosted_user = Some(c);
                         let first = Self::pos_meta(&pre, pays[0].0);
@@ -1682,7 +1750,7 @@ impl StakingWorld {
                         })
                     };
                     let ok = r.result_status == 0;
-                    if ok {
+                    if ok && !self.quiet {
                         let post = self.snap();
                         if x.is_some() {
                             self.virt -= bi(&pay.1);
@@ -1728,7 +1796,7 @@ impl StakingWorld {
                         _ => None,
                     };
                     let have = Self::held(&pre, c, pay.0);
-                    if ok {
+                    if ok && !self.quiet {
                         let post = self.snap();
                         match unlock {
                             Some(e) if e <= self.epoch => {
@@ -1761,7 +1829,7 @@ impl StakingWorld {
                         outs = (0, BigUint::zero(), to_big(&t.amount));
                     });
                     let ok = r.result_status == 0;
-                    if ok {
+                    if ok && !self.quiet {
                         let post = self.snap();
                         info.boosted_user = Some(u.unwrap_or(c));
                         info.boosted_ret = Some(outs.2.clone());
@@ -1769,7 +1837,7 @@ impl StakingWorld {
                     }
                     ok
                 }
-                "calc" | "calcAsUser" => {
+                "calcAsUser" => {
                     let amt: BigUint = w[1].parse().ok()?;
                     let (rps, comp, cur): (BigUint, BigUint, BigUint) = (w[2].parse().ok()?, w[3].parse().ok()?, w[4].parse().ok()?);
                     let oa = match self.idx(w[5]) {
@@ -1786,17 +1854,11 @@ impl StakingWorld {
                         };
                         *v = to_big(&sc.calculate_rewards_for_given_position(mbig(&amt), attrs));
                     };
-                    let r = if w[0] == "calc" {
-                        self.b.execute_query(&self.farm, |sc| call(sc, &mut v))
-                    } else {
-                        let ca = self.addrs[0].clone();
-                        self.b.execute_tx(&ca, &self.farm, &zero, |sc| call(sc, &mut v))
-                    };
+                    let ca = self.addrs[0].clone();
+                    let r = self.b.execute_tx(&ca, &self.farm, &zero, |sc| call(sc, &mut v));
                     let ok = r.result_status == 0;
                     if ok {
-                        if w[0] == "calcAsUser" {
-                            tr.fail("C20", "reward_view_query_only", "calculateRewardsForGivenPosition", "the reward view ran in a normal transaction");
-                        }
+                        tr.fail("C20", "reward_view_query_only", "calculateRewardsForGivenPosition", "the reward view ran in a normal transaction");
                         outs = (0, BigUint::zero(), v.clone());
                         view_val = Some(v);
                     }
@@ -1839,7 +1901,7 @@ impl StakingWorld {
                 "withdraw" => {
                     let x: BigUint = w[1].parse().ok()?;
                     let ok = self.b.execute_tx(&owner, &self.farm, &zero, |sc| sc.withdraw_rewards(mbig(&x))).result_status == 0;
-                    if ok {
+                    if ok && !self.quiet {
                         let post = self.snap();
                         outs = (0, x.clone(), BigUint::zero());
                         // settled first: the bound is taken after accrual up to this block
@@ -1866,7 +1928,7 @@ impl StakingWorld {
                         "setPct" => sc.set_boosted_yields_rewards_percentage(u64::try_from(arg.clone()).unwrap_or(u64::MAX)),
                         _ => sc.start_produce_rewards_endpoint(),
                     }).result_status == 0;
-                    if ok {
+                    if ok && !self.quiet {
                         let post = self.snap();
                         if self.block > pre.last && post.last != self.block {
                             tr.fail("C06", "admin_settles_first", &site,
@@ -1901,7 +1963,7 @@ impl StakingWorld {
                 }
                 "collectUndist" => {
                     let ok = self.b.execute_tx(&owner, &self.farm, &zero, |sc| sc.collect_undistributed_boosted_rewards()).result_status == 0;
-                    if ok {
+                    if ok && !self.quiet {
                         let post = self.snap();
                         info.collect = true;
                         let pools = |s: &Snap| -> BigUint { s.pool_old.clone() + s.weeks.values().map(|x| &x.rem + &x.acc).sum::<BigUint>() };
@@ -1999,12 +2061,14 @@ impl StakingWorld {
             })
         })()
         .unwrap_or(false);
-        let post = self.snap();
-        if w[0] == "calc" && ok {
-            // the settlement a query performs is committed in this VM: account for it as a transaction
-            info.boosted_user = None;
+        if self.quiet {
+            return;
         }
+        let post = self.snap();
         self.oracles_after(tr, &site, &pre, &post, ok, &info);
+        if ok && !is_q {
+            self.log.push(text.to_string());
+        }
         if !(is_q && ok) {
             self.last_quote = None;
         }
